@@ -134,9 +134,12 @@ def trk_oracle(case, impl):
             key = int(p[2])
             if (key, False) in kernel:
                 fd, kind = kernel.pop((key, False))
-                if not (out.startswith(kind + "@") and out.split("@")[1] in (fd, "-1")):
+                want = kind if ":" in kind else kind + (":10b" if kind in ("send", "vec") else "")
+                if not (out.startswith(want + "@") and out.split("@")[1] in (fd, "-1")):
                     return "key=trk-misattributed the first completion of %s@%s (key %d) was processed with the entry %s" % (kind, fd, key, out)
-                kernel[(key, True)] = (fd, "lease:" + kind.split(":")[1])
+                if ":" in kind:
+                    kernel[(key, True)] = (fd, "lease:" + kind.split(":")[1])
+                # (a first completion with more to come only exists for zero-copy sends; for anything else the entry is simply gone)
         elif p[1] == "complete":
             key, notif = int(p[2]), p[3] == "1"
             if (key, notif) in kernel:
